@@ -489,16 +489,41 @@ Section EBody.
                  (match ts0 with (TComma, _) :: _ => true | _ => false end)).
     { destruct ts0 as [|[[] [? ?]] ?]; reflexivity. }
     rewrite EL. clear EL. set (is_list := match ts0 with (TComma, _) :: _ => true | _ => false end). clearbody is_list.
-    assert (E1 : (if is_list then test_list_tail c (parse_test c I R) false (erase first) (map fst ts0) else Ok (erase first, map fst ts0))
-                 = er_e (if is_list then stest_list_tail c (sparse_test c SR) false (pos (ts, le)) first (ts0, le0) else Ok (first, (ts0, le0)))).
-    { destruct is_list; [|reflexivity]. apply test_list_tail_erase. exact parse_test_erase. }
-    rewrite E1. clear E1. destruct (if is_list then _ else _) as [[lhs [ts1 le1]]| | |]; red1; try reflexivity.
-    absd D. { reflexivity. } dtk ts1 l1 r1 rest1 D; try reflexivity.
-    - destruct (is_list && strict); reflexivity.
-    - useH (test_list_erase (sparse_test c SR) (parse_test c I R) false) rest1 r1; [|exact parse_test_erase].
-      destruct (stest_list c (sparse_test c SR) false (rest1, r1)) as [[rhs [ts2 le2]]| | |]; red1; try reflexivity.
-      destruct ts2 as [|? ?]; cbn [map]; [|reflexivity]. destruct (check_assign (erase lhs)); [|reflexivity].
-      cbn [rmap erase_stmt]. rewrite erase_snorm. reflexivity.
+    assert (K : forall b lhs (ts1 : stoks) le1,
+      match map fst ts1 with
+      | [] => if b && strict then Err 15 else Ok (SExpr (erase lhs))
+      | TColon :: _ => Unmodelled
+      | TOther _ :: _ => Unmodelled
+      | TEqual :: r' =>
+        '(rhs, r'') <- test_list c (parse_test c I R) false r' ;;
+        match r'' with
+        | [] => if check_assign (erase lhs) then Ok (SAssign (norm_target (erase lhs)) rhs) else Err 13
+        | _ => Err 14
+        end
+      | _ => Err 14
+      end = rmap erase_stmt
+      match fst (ts1, le1) with
+      | [] => if b && strict then Err 15 else Ok (TExpr (pos (ts, le), snd (ts1, le1)) lhs)
+      | (TColon, _) :: _ => Unmodelled
+      | (TOther _, _) :: _ => Unmodelled
+      | (TEqual, (_, r)) :: rest =>
+        '(rhs, s2) <- stest_list c (sparse_test c SR) false (rest, r) ;;
+        match fst s2 with
+        | [] => if check_assign (erase lhs) then Ok (TAssign (pos (ts, le), snd s2) (snorm_target lhs) rhs) else Err 13
+        | _ => Err 14
+        end
+      | _ => Err 14
+      end).
+    { intros b lhs ts1 le1. destruct ts1 as [|[[] [l1 r1]] rest1]; cbn [map fst snd]; try reflexivity.
+      - destruct (b && strict); reflexivity.
+      - useH (test_list_erase (sparse_test c SR) (parse_test c I R) false) rest1 r1; [|exact parse_test_erase].
+        destruct (stest_list c (sparse_test c SR) false (rest1, r1)) as [[rhs [ts2 le2]]| | |]; red1; try reflexivity.
+        destruct ts2 as [|? ?]; cbn [map]; [|reflexivity]. destruct (check_assign (erase lhs)); [|reflexivity].
+        cbn [rmap erase_stmt]. rewrite erase_snorm. reflexivity. }
+    destruct is_list.
+    - useH (test_list_tail_erase (sparse_test c SR) (parse_test c I R) false (pos (ts, le)) first) ts0 le0; [|exact parse_test_erase].
+      destruct (stest_list_tail _ _ _ _ _ _) as [[lhs [ts1 le1]]| | |]; red1; try reflexivity. apply (K true).
+    - red1. apply (K false).
   Qed.
 End EBody.
 
@@ -528,3 +553,156 @@ Qed.
 Theorem parser_erase_spans_test : forall c fuel (ts : stoks) le,
   er_e (sparse_test_m c fuel (ts, le)) = parse_test_m c fuel (map fst ts).
 Proof. intros c fuel ts le. symmetry. apply (go_erase c fuel). Qed.
+
+(* ---------------------------------------------------------------------------------------------- *)
+(* Part B: layout *)
+Open Scope N_scope.
+
+Lemma end_last_app : forall a b p, end_last p (a ++ b) = end_last (end_last p a) b.
+Proof. induction a as [|[t [l r]] a IH]; intros b p; cbn [app end_last]; [reflexivity | apply IH]. Qed.
+Lemma end_last_ne : forall a p q, a <> [] -> end_last p a = end_last q a.
+Proof. intros [|[t [l r]] a] p q H; [congruence | reflexivity]. Qed.
+Lemma first_begin_app : forall a b, a <> [] -> first_begin (a ++ b) = first_begin a.
+Proof. intros [|[t [l r]] a] b H; [congruence | reflexivity]. Qed.
+Lemma app_ne_l : forall {A} (a b : list A), a <> [] -> a ++ b <> [].
+Proof. intros A [|x a] b H; [congruence | discriminate]. Qed.
+Lemma app_ne_r : forall {A} (a b : list A), b <> [] -> a ++ b <> [].
+Proof. intros A [|x a] b H; [exact H | discriminate]. Qed.
+
+Lemma lay_ne : forall c t, lay c t -> c <> [].
+Proof. intros c t H. destruct H; [discriminate | assumption]. Qed.
+Lemma lay_span : forall c t, lay c t -> rsp t = seg_span c.
+Proof. intros c t H. destruct H; [destruct sp; reflexivity | reflexivity]. Qed.
+Lemma covers_ne : forall c t, covers c t -> c <> [].
+Proof. intros c t (pre & core & post & E & _ & _ & L). subst. apply app_ne_r, app_ne_l. eapply lay_ne; eauto. Qed.
+
+Lemma kl_pre : forall x r ks, kids_lay r ks -> kids_lay (x ++ r) ks.
+Proof.
+  intros x r ks H. destruct H as [c|a c rest k ks L K]; [constructor|]. rewrite app_assoc. constructor; assumption.
+Qed.
+Lemma kl_skip : forall t r ks, kids_lay r ks -> kids_lay (t :: r) ks.
+Proof. intros t r ks H. apply (kl_pre [t]), H. Qed.
+Lemma kl_cov : forall c k rest ks, covers c k -> kids_lay rest ks -> kids_lay (c ++ rest) (k :: ks).
+Proof.
+  intros c k rest ks (pre & core & post & E & _ & _ & L) K. subst. rewrite <- !app_assoc.
+  constructor; [assumption | apply kl_pre, K].
+Qed.
+Lemma kl_leaf : forall tok sp rest ks, kids_lay rest ks -> kids_lay ((tok, sp) :: rest) (rleaf tok sp :: ks).
+Proof. intros tok sp rest ks K. apply (kl_cons [] [(tok, sp)] rest). apply lay_leaf. exact K. Qed.
+Lemma kl_app : forall c1 ks1, kids_lay c1 ks1 -> forall c2 ks2, kids_lay c2 ks2 -> kids_lay (c1 ++ c2) (ks1 ++ ks2).
+Proof.
+  fix IH 3. intros c1 ks1 H c2 ks2 K. destruct H as [c|a c rest k ks L K1].
+  - cbn [app]. apply kl_pre, K.
+  - rewrite <- !app_assoc. cbn [app]. constructor; [exact L | apply IH; assumption].
+Qed.
+
+(* the three span shapes of parser_rd.rs *)
+Lemma cov_full : forall cons kids sp p, cons <> [] -> kids_lay cons kids -> sp = (first_begin cons, end_last p cons) ->
+  covers cons (RT sp None kids).
+Proof.
+  intros cons kids sp p NE K ->. exists [], cons, []. rewrite app_nil_r. repeat split; try constructor.
+  rewrite (end_last_ne cons p 0 NE). apply lay_node; assumption.
+Qed.
+
+Lemma cov_left : forall c1 k1 rest ks sp p, covers c1 k1 -> kids_lay rest ks -> rest <> [] ->
+  sp = (fst (rsp k1), end_last p (c1 ++ rest)) -> covers (c1 ++ rest) (RT sp None (k1 :: ks)).
+Proof.
+  intros c1 k1 rest ks sp p (pre & core & post & E & O & C & L) K NE ->. subst c1.
+  exists pre, (core ++ post ++ rest), []. rewrite app_nil_r, <- !app_assoc. repeat split; try assumption; try constructor.
+  pose proof (lay_ne _ _ L) as NC. rewrite (lay_span _ _ L).
+  replace (fst (seg_span core), end_last p (pre ++ core ++ post ++ rest)) with (seg_span (core ++ post ++ rest)).
+  - apply lay_node; [apply app_ne_l, NC|]. apply (kl_cons [] core (post ++ rest)); [exact L | apply kl_pre, K].
+  - unfold seg_span. cbn [fst]. rewrite (first_begin_app core _ NC). f_equal.
+    rewrite !end_last_app. apply end_last_ne, NE.
+Qed.
+
+Lemma cov_op : forall c1 k1 mid c2 k2, covers c1 k1 -> covers c2 k2 ->
+  covers (c1 ++ mid ++ c2) (RT (fst (rsp k1), snd (rsp k2)) None [k1; k2]).
+Proof.
+  intros c1 k1 mid c2 k2 (pre & core & post & E & O & C & L) (pre2 & core2 & post2 & E2 & O2 & C2 & L2). subst.
+  exists pre, (core ++ post ++ mid ++ pre2 ++ core2), post2. rewrite <- !app_assoc. repeat split; try assumption.
+  pose proof (lay_ne _ _ L) as NC. pose proof (lay_ne _ _ L2) as NC2. rewrite (lay_span _ _ L), (lay_span _ _ L2).
+  replace (fst (seg_span core), snd (seg_span core2)) with (seg_span (core ++ post ++ mid ++ pre2 ++ core2)).
+  - apply lay_node; [apply app_ne_l, NC|]. apply (kl_cons [] core); [exact L|].
+    rewrite !app_assoc. rewrite <- (app_nil_r core2) at 1. rewrite <- !app_assoc. rewrite !app_assoc.
+    rewrite <- (app_assoc _ core2 []). constructor; [exact L2 | constructor].
+  - unfold seg_span. cbn [fst snd]. rewrite (first_begin_app core _ NC). f_equal.
+    rewrite !end_last_app. apply end_last_ne, NC2.
+Qed.
+
+Lemma cov_paren : forall c t s1 s2, covers c t -> covers ((TOpeningRound, s1) :: c ++ [(TClosingRound, s2)]) t.
+Proof.
+  intros c t s1 s2 (pre & core & post & E & O & C & L). subst.
+  exists ((TOpeningRound, s1) :: pre), core, (post ++ [(TClosingRound, s2)]). rewrite <- !app_assoc. repeat split.
+  - constructor; [reflexivity | exact O].
+  - apply Forall_app. split; [exact C | constructor; [reflexivity | constructor]].
+  - exact L.
+Qed.
+
+Lemma cov_leaf : forall tok sp, covers [(tok, sp)] (rleaf tok sp).
+Proof. intros. exists [], [(tok, sp)], []. repeat split; try constructor. Qed.
+
+Lemma rsp_tree_of : forall e, rsp (tree_of e) = sspan e.
+Proof. destruct e; reflexivity. Qed.
+
+(* the Hoare triple: if m succeeds from s, it consumed a run `cons` of lexemes, last_end is the end of the last of
+   them, and Q holds of the run and the result *)
+Definition sat {A} (s : st) (m : res (A * st)) (Q : stoks -> A -> Prop) : Prop :=
+  match m with
+  | Ok (a, s') => exists cons, fst s = cons ++ fst s' /\ snd s' = end_last (snd s) cons /\ Q cons a
+  | _ => True
+  end.
+
+Lemma sat_ret : forall {A} (s : st) (a : A) (Q : stoks -> A -> Prop), Q [] a -> sat s (Ok (a, s)) Q.
+Proof. intros A s a Q H. exists []. repeat split; assumption. Qed.
+
+Lemma sat_bind : forall {A B} (s : st) (m : res (A * st)) (k : A * st -> res (B * st)) Q1 (Q2 : stoks -> B -> Prop),
+  sat s m Q1 ->
+  (forall c1 a (ts1 : stoks), Q1 c1 a -> fst s = c1 ++ ts1 ->
+     sat (ts1, end_last (snd s) c1) (k (a, (ts1, end_last (snd s) c1))) (fun c2 b => Q2 (c1 ++ c2) b)) ->
+  sat s (bind m k) Q2.
+Proof.
+  intros A B s m k Q1 Q2 H K. destruct m as [[a [ts1 le1]]| | |]; cbn [bind]; try exact I.
+  destruct H as (c1 & E1 & E2 & q1). cbn [fst snd] in *. subst le1. specialize (K c1 a ts1 q1 E1).
+  unfold sat in *. destruct (k _) as [[b [ts2 le2]]| | |]; try exact I.
+  destruct K as (c2 & F1 & F2 & q2). cbn [fst snd] in *. exists (c1 ++ c2). repeat split.
+  - rewrite E1, F1, app_assoc. reflexivity.
+  - rewrite F2, end_last_app. reflexivity.
+  - exact q2.
+Qed.
+
+Lemma sat_tok : forall {B} t l r (rest : stoks) le (m : res (B * st)) (Q : stoks -> B -> Prop),
+  sat (rest, r) m (fun c b => Q ((t, (l, r)) :: c) b) -> sat ((t, (l, r)) :: rest, le) m Q.
+Proof.
+  intros B t l r rest le m Q H. unfold sat in *. destruct m as [[b [ts2 le2]]| | |]; try exact I.
+  destruct H as (c & F1 & F2 & q). cbn [fst snd] in *. exists ((t, (l, r)) :: c). repeat split.
+  - rewrite F1. reflexivity.
+  - exact F2.
+  - exact q.
+Qed.
+
+Lemma sat_weaken : forall {A} (s : st) (m : res (A * st)) (Q Q' : stoks -> A -> Prop),
+  sat s m Q -> (forall c a, Q c a -> Q' c a) -> sat s m Q'.
+Proof.
+  intros A s m Q Q' H W. unfold sat in *. destruct m as [[a s']| | |]; try exact I.
+  destruct H as (c & E1 & E2 & q). exists c. repeat split; auto.
+Qed.
+
+Lemma token_eqb_close : forall t, token_eqb TClosingRound t = true -> t = TClosingRound.
+Proof. destruct t; cbn; congruence. Qed.
+
+(* expect: one lexeme is consumed (which one matters only for the closing parenthesis) *)
+Lemma sat_expect : forall {B} t (s : st) (k : st -> res (B * st)) (Q : stoks -> B -> Prop),
+  (forall t' l r (rest : stoks), fst s = (t', (l, r)) :: rest -> token_eqb t t' = true ->
+     sat (rest, r) (k (rest, r)) (fun c b => Q ((t', (l, r)) :: c) b)) ->
+  sat s (bind (sexpect t s) k) Q.
+Proof.
+  intros B t [ts le] k Q H. unfold sexpect. cbn [fst snd] in *. destruct ts as [|[t' [l r]] rest]; [exact I|].
+  destruct (token_eqb t t') eqn:E; [|exact I]. cbn [bind]. apply sat_tok. apply (H t' l r rest eq_refl E).
+Qed.
+
+Notation GoodE := (fun (c : stoks) (e : sexpr) => covers c (tree_of e)).
+
+Ltac sbind := eapply sat_bind; [ | let c := fresh "c" in let a := fresh "a" in let ts := fresh "ts" in
+                                    let q := fresh "q" in let E := fresh "E" in
+                                    intros c a ts q E; cbn [fst snd] in E; cbn beta iota ].
